@@ -187,6 +187,8 @@ def mag_expr(mag):
         return D(mag["der"])
     if "sum" in mag:                      # [parameter name, integer]  ->  'name+c'
         return add(P(mag["sum"][0]), C(int(mag["sum"][1])))
+    if "state" in mag:                    # the current value of a state ('everything leaves at once')
+        return S(mag["state"])
     raise ValueError(mag)
 
 
@@ -201,6 +203,8 @@ def mag_str(mag):
         return mag["der"]
     if "sum" in mag:
         return "%s+%d" % (mag["sum"][0], int(mag["sum"][1]))
+    if "state" in mag:
+        return mag["state"]
     raise ValueError(mag)
 
 
